@@ -111,9 +111,54 @@ def run(ctx):
             h = l4.History(c["id"], names)
             scen.add_model_history(h, c["steps"], c["marks"], r, names)
             hs.append(h)
+    # (c') every crash point of an interrupted backup of an UNCHANGED tree whose root-level names
+    # sort (as bytes) above deeper paths; the resumed backup must write no block at all and record
+    # the first version's addresses
+    trap = scen.order_trap_tree()
+    o0 = {"meph": 3, "mbs": 64, "sfc": 1 << 20}
+    tcases = []
+    for k in range(9, 46 if quick else 70):
+        for meph in ((2,) if quick else (1, 2, 3)):
+            o1 = {"meph": meph, "mbs": 64, "sfc": 1 << 20}
+            tcases.append({"id": f"t{k}_{meph}", "k": k, "steps": [
+                {"op": "init"}, {"op": "mktree", "path": "src", "tree": trap}, {"op": "walk"}, {"op": "backup", "opts": o0}, {"op": "arch"},
+                {"op": "backup", "opts": o1, "plan": {"crash": k}}, {"op": "arch"}, {"op": "backup", "opts": o1}, {"op": "arch"}]})
+    tres = ctx.cvh_run(tcases)
+    for c in tcases:
+        r = tres.get(c["id"])
+        ctx.count()
+        small = {"steps": c["steps"]}
+        if r is None or r[7].get("result") != "ok":
+            ctx.oracle_fail("dedup/resumed-backup-failed", "the resumed backup failed: " + json.dumps(r and (r[7].get("err") or r[7].get("panic")))[:200], small)
+            continue
+        w = block_writes(r[7]["trace"])
+        if w:
+            ctx.oracle_fail("dedup/resume-rewrites-blocks", f"after a kill at operation {c['k']} the resumed backup of an unchanged tree wrote {len(w)} data block(s)", small)
+            continue
+        dec = scen.decode(r[8]["arch"])
+        newest = max(dec["bands"])
+        a0 = addresses(r[4]["arch"], 0)
+        a1 = {e["apath"]: e.get("addrs", []) for e in scen.band_entries(dec["bands"][newest])}
+        if a0 != a1:
+            diff = [p for p in a0 if a0.get(p) != a1.get(p)][:3]
+            ctx.oracle_fail("dedup/resume-does-not-reuse", f"after a kill at operation {c['k']} the resumed backup records different addresses for {diff}", small)
+            continue
+        ctx.nontrivial(c["id"])
+        names = l4.Names()
+        scen.collect_names(names, c["steps"], r)
+        h = l4.History(c["id"], names)
+        for i, (st, rs) in enumerate(zip(c["steps"], r)):
+            if i == 5:
+                if rs.get("crashed"):
+                    h.add(st, rs, mode=1, crash=(c["k"], False))
+                else:
+                    h.add(st, rs)
+            else:
+                h.add(st, rs)
+        hs.append(h)
     out = l4.evaluate(ctx, "C14", hs, shards=8 if quick else 16)
     agreed = total = 0
-    allc = {c["id"]: c for c in cases + hcases}
+    allc = {c["id"]: c for c in cases + hcases + tcases}
     for h in hs:
         for desc, code in (out.get(h.cid) or []):
             total += 1
